@@ -89,14 +89,19 @@ def run_unit(kind, key, tier, known, seed=0, inner=1):
         if kind != 'lemma':
             # a unit with many obligations asks for more solver processes
             inner = max(inner, int(reg.get(key).get('opts', {}).get('parallel', 1)))
-        if inner > 1 and n > 8:
+        if n:
             # obligations are independent: solve them in forked children (they
-            # inherit the z3 terms; only plain data comes back)
+            # inherit the z3 terms; only plain data comes back).  Always in a
+            # child, also for a single process: a solver interrupt (cvc5 answered
+            # first) that arrives after z3 has finished would otherwise stay
+            # pending in this long-lived worker and turn the next unit's first
+            # check (its vacuity cover) into `unknown`
             import multiprocessing as mp
-            with mp.get_context('fork').Pool(min(inner, n)) as pool:
+            k = min(inner, n) if (inner > 1 and n > 8) else 1
+            with mp.get_context('fork').Pool(k) as pool:
                 out_obls = pool.map(_solve_one, range(n), chunksize=1)
         else:
-            out_obls = [_solve_one(i) for i in range(n)]
+            out_obls = []
         return dict(kind=kind, key=key, short=res.short, status=res.status,
                     reason=res.reason, serves=res.serves, file=res.file,
                     sha256=res.sha256, lines=res.lines, dropped=res.dropped,
